@@ -588,6 +588,9 @@ func defaultKinds(ts []string) []string {
 	return o
 }
 
+// forceCtx, when set, is the reflective form of every signature added (otherwise random per signature)
+var forceCtx string
+
 func pickKinds(rng *c.Rng, ts []string) []string {
 	o := make([]string, len(ts))
 	for i, t := range ts {
@@ -653,6 +656,9 @@ func main() {
 				plans = append(plans, mk(st, pk, rk)...)
 			}
 			ctxKind := []string{"none", "ctx", "ctxmod"}[rng.Intn(3)]
+			if forceCtx != "" {
+				ctxKind = forceCtx
+			}
 			for i := range plans {
 				if plans[i].style == "reflect" {
 					plans[i].ctx = ctxKind
@@ -713,6 +719,42 @@ func main() {
 		}
 		fixed(sig{pt, rt}, args, hr, signed)
 	}
+	// the everyday shapes, enumerated: 0-4 parameters of ONE integer kind (int32, uint32, int64, uint64), no result or one of
+	// the same kind, in each reflective form (no context / context / context + module), plain and defined types
+	// (consecutive signature ids alternate), extreme values in both directions
+	for _, fc := range []string{"none", "ctx", "ctxmod"} {
+		forceCtx = fc
+		for _, t := range []string{"i32", "i64"} {
+			for _, ki := range []int{0, 1} {
+				kind := func(string) string { return kindsOf[t][ki] }
+				for np := 0; np <= 4; np++ {
+					for nr := 0; nr <= 1; nr++ {
+						if np == 0 && nr == 0 {
+							continue
+						}
+						var pt, rt []string
+						var args, hr []uint64
+						neg := []uint64{0xfffffffb, 0x80000000, 0xffffffff, 0x7fffffff}
+						if t == "i64" {
+							neg = []uint64{0xfffffffffffffffb, 0x8000000000000000, 0xffffffff00000000, 0x00000000ffffffff}
+						}
+						for i := 0; i < np; i++ {
+							pt = append(pt, t)
+							args = append(args, neg[i%len(neg)])
+						}
+						for i := 0; i < nr; i++ {
+							rt = append(rt, t)
+							hr = append(hr, neg[(np+i)%len(neg)])
+						}
+						for rep := 0; rep < 2; rep++ {
+							fixed(sig{pt, rt}, args, hr, kind)
+						}
+					}
+				}
+			}
+		}
+	}
+	forceCtx = ""
 	for i := 0; i < *n; i++ {
 		s := sig{genTypes(rng, rng.Intn(6)), genTypes(rng, rng.Intn(6))}
 		addSig(s, func(style string, pk, rk []string) []plan {
